@@ -13,7 +13,17 @@ import (
 	"golang.org/x/tools/go/ssa/ssautil"
 )
 
-const repoDir = "/repo"
+// repoDir is /repo for every registered check; BBVC_REPO / BBVC_OUT exist only so that the seeded
+// must-fail corpus can be run in parallel against scratch worktrees (seeds_verify.py).
+var repoDir = envOr("BBVC_REPO", "/repo")
+var outDir = envOr("BBVC_OUT", "/verif")
+
+func envOr(k, d string) string {
+	if v := os.Getenv(k); v != "" {
+		return v
+	}
+	return d
+}
 
 var loadPatterns = []string{
 	"go.etcd.io/bbolt",
